@@ -432,6 +432,33 @@ func canonLinesFor(prop string, lines []Line, metaReq map[string]bool, lazy map[
 			keys = append(keys, k)
 		}
 		sort.Strings(keys)
+		// Sessions ended in this step (they are sent GOODBYE or ABORT). When several end at once
+		// (kill_by_*, kill_all) their handlers leave concurrently: which of them is named as the
+		// cause of a subscription's or registration's on_delete depends on the order in which the
+		// goroutines run. In such a step the leaver's id in the first argument of an EVENT is masked.
+		var leavers []string
+		for _, k := range keys {
+			for _, m := range l.Out[k] {
+				if c := int(num(m[0])); c == 3 || c == 6 {
+					leavers = append(leavers, "$s"+k)
+				}
+			}
+		}
+		maskLeaver := func(m []any) {
+			if len(leavers) < 2 || int(num(m[0])) != 36 || len(m) < 5 {
+				return
+			}
+			if args, ok := m[4].([]any); ok && len(args) > 0 {
+				if id, ok := args[0].(string); ok {
+					for _, lv := range leavers {
+						if lv == id {
+							na := append([]any{"$s*"}, args[1:]...)
+							m[4] = na
+						}
+					}
+				}
+			}
+		}
 		for _, k := range keys {
 			var ms [][]any
 			for _, m := range l.Out[k] {
@@ -446,6 +473,7 @@ func canonLinesFor(prop string, lines []Line, metaReq map[string]bool, lazy map[
 				if code != 3 && code != 6 && !relevant(prop, m) {
 					continue
 				}
+				maskLeaver(m)
 				if code == 50 && len(m) > 1 && metaReq[k+"/"+jsonKey(m[1])] {
 					for j := 2; j < len(m); j++ {
 						m[j] = sortIntLists(m[j])
